@@ -948,3 +948,49 @@ func (v V) Latin1Keys() (V, bool) {
 	}
 	return v, true
 }
+
+
+// lookupsConsistent: on every list reachable from root, Contains and IndexOf agree with a scan of what the
+// list holds (== on the values Get returns), for the given probes and for the list's own first and last
+// element. A lookup structure kept next to the elements and shared or not updated would show here.
+func lookupsConsistent(root any, probes []any) error {
+	for _, id := range Idents(root) {
+		l, ok := id.(at.List)
+		if !ok {
+			continue
+		}
+		sl := l.Slice()
+		ps := append([]any{}, probes...)
+		if len(sl) > 0 {
+			ps = append(ps, sl[0], sl[len(sl)-1])
+		}
+		for _, p := range ps {
+			want := -1
+			for i, e := range sl {
+				if eq, _ := rawEq(e, p); eq {
+					want = i
+					break
+				}
+			}
+			var gi int
+			var gc bool
+			if pv, panicked := catch(func() { gi, gc = l.IndexOf(p), l.Contains(p) }); panicked {
+				return errf("IndexOf/Contains(%s) panicked on a list of %d elements: %v", showAny(p), len(sl), pv)
+			}
+			if gi != want || gc != (want >= 0) {
+				return errf("a list of %d elements answers IndexOf(%s) = %d and Contains = %v, a scan of its elements gives index %d (%s)", len(sl), showAny(p), gi, gc, want, clip(l.String(), 160))
+			}
+		}
+	}
+	return nil
+}
+
+// rawEq is == on two interface values; ok is false if the comparison itself panics (uncomparable types).
+func rawEq(a, b any) (eq bool, ok bool) {
+	defer func() {
+		if recover() != nil {
+			eq, ok = false, false
+		}
+	}()
+	return a == b, true
+}
